@@ -9,12 +9,12 @@ BASE_NOTE = ("Trusted: Lean 4.33 kernel with axioms propext, Classical.choice, Q
 
 CHECKS = {
  "C01": dict(
-   cat="proof", technique="Lean 4 theorem (induction over swap loop, any pivot oracle) + model/implementation differential",
+   cat="proof", technique="Lean 4 theorem (induction over swap loop, any pivot oracle) + model/implementation differential + translator regenerating SSPOR.fit's post-optimizer statements and the reads of the ranking from the AST (Python slice arithmetic explicit), proved equal to tailShuffle / selectLead on every run",
    text="Lean theorems pivLoop_perm / tailShuffle_perm / selected_spec / ranking_pipeline_spec prove for every pivot oracle, "
         "size, shuffle and sensor count that the ranking is a permutation and the selection a duplicate-free prefix of the "
         "reported length; the bookkeeping model is replayed against the real CCQR/GQR/SSPOR runs on every invocation.",
    ref="DESIGN.md §5 C01",
-   note="LAPACK geqp3's pivot vector (QR) is a parameter, checked directly on each sample; numpy's Generator.permutation is the σ parameter."),
+   note="Generated/Ranking.lean (harness/translate_ranking.py): pipe_ssporFit – the statements after the optimizer call are tailShuffle σ m for every ranking, mode count, sensor count and permutation oracle (seed must reach np.random.default_rng unmodified); selection_<method>_k – every slice of ranked_sensors_ in predict / get_selected_sensors is selectLead n_sensors. LAPACK geqp3's pivot vector (QR) is a parameter, checked directly on each sample; numpy's Generator.permutation is the σ parameter."),
  "C03": dict(
    cat="proof", technique="Lean 4 theorems over an exact Gram/Schur model (greedy rule = max MGS residual) + ε-acceptance of real pivot traces",
    text="qr_pick_max_mgs_residual proves that every pick of the exact model has the largest modified-Gram–Schmidt residual among "
@@ -91,11 +91,11 @@ CHECKS = {
    ref="DESIGN.md §5 C13",
    note="Python eval/__import__, numpy unravel/ravel and pandas dropna are parameters. Holds after fix 215804b (.strip('.py'))."),
  "C14": dict(
-   cat="proof", technique="Lean 4 theorems about a state-machine model of SSPOR (setters last-wins, ranking untouched) + history differential vs the real object and a fresh-model oracle",
+   cat="proof", technique="Lean 4 theorems about a state-machine model of SSPOR (setters last-wins, ranking untouched) + history differential vs the real object and a fresh-model oracle + translator regenerating SSPOR.fit's post-optimizer statements and the reads of the ranking from the AST (Python slice arithmetic explicit), proved equal to tailShuffle / selectLead on every run",
    text="selected_eq_take, setN_preserves_ranking, setN_ok_iff, setN_rejected_unchanged, setters_last_wins, ctor_fit_eq_fit_set over all setter sequences; "
         "the machine's observable projection is compared with the real SSPOR after every call and the final state with a fresh model built with the final value.",
    ref="DESIGN.md §5 C14",
-   note="The optimizer ranking and basis entries are parameters of the machine (taken from the real run)."),
+   note="Generated/Ranking.lean (harness/translate_ranking.py): pipe_ssporFit – the statements after the optimizer call are tailShuffle σ m for every ranking, mode count, sensor count and permutation oracle (seed must reach np.random.default_rng unmodified); selection_<method>_k – every slice of ranked_sensors_ in predict / get_selected_sensors is selectLead n_sensors. The optimizer ranking and basis entries are parameters of the machine (taken from the real run)."),
  "C15": dict(
    cat="proof", technique="Lean 4 theorems about the SSPOR state machine (fit reads settings only) + history differential over datasets of different shapes + from-scratch reference",
    text="fit_is_reset_partial / fit_after_history_is_reset (a successful fit's outcome depends only on the settings), fit_preserves_settings, update_modes_prefix; "
@@ -103,11 +103,11 @@ CHECKS = {
    ref="DESIGN.md §5 C15",
    note="Holds on /repo after fix commits 63a46df, 8363b27. `_partial`: the settings relation compares the basis attribute n_basis_modes, which Identity() overwrites on its first fit (known finding F7)."),
  "C16": dict(
-   cat="proof", technique="Lean 4 theorems about tailShuffle (lead and tail set independent of the rearrangement) + seed-pair differential on real SSPOR",
+   cat="proof", technique="Lean 4 theorems about tailShuffle (lead and tail set independent of the rearrangement) + seed-pair differential on real SSPOR + translator regenerating SSPOR.fit's post-optimizer statements and the reads of the ranking from the AST (Python slice arithmetic explicit), proved equal to tailShuffle / selectLead on every run",
    text="lead_seed_independent, lead_untouched, tail_set_seed_independent, same_seed_same_ranking, no_tail_seed_irrelevant for every rearrangement family; "
         "real rankings across seeds are compared pairwise and against tailShuffle with numpy's permutation as the parameter.",
    ref="DESIGN.md §5 C16",
-   note="numpy's Generator.permutation is a parameter (a permutation, a function of the seed)."),
+   note="Generated/Ranking.lean (harness/translate_ranking.py): pipe_ssporFit – the statements after the optimizer call are tailShuffle σ m for every ranking, mode count, sensor count and permutation oracle (seed must reach np.random.default_rng unmodified); selection_<method>_k – every slice of ranked_sensors_ in predict / get_selected_sensors is selectLead n_sensors. numpy's Generator.permutation is a parameter (a permutation, a function of the seed)."),
  "C17": dict(
    cat="proof", technique="Lean 4 theorems about the metric definitions (relative error identity, det(T^T T) >= 0, selection matrix = row gather, model determinant) + recomputation through the public API and exact rational determinant",
    text="rel_error_identity, det_gram_nonneg, theta_eq_gather, determinantModel_nonneg, sqErr_self; real score / reconstruction_error / relative_reconstruction_error / determinant are compared with their definitions recomputed through public predict "
